@@ -298,10 +298,15 @@ def vhdx(chk: Check):
         chk.undecided("K-PROV", "vhdx:locator-addresses", loop, f"cannot tell which file bytes the stored key and value consist of "
                       f"({len(seeks)} seeks, {len(reads)} reads, {len(stores)} stores)")
     else:
-        unproved = [S.show(c)[:120] for c in rk[2] + rv[2] if always(c) is not True]
+        verdicts = [(c, always(c)) for c in rk[2] + rv[2]]
+        refuted = [S.show(c)[:160] for c, v in verdicts if v is False]
+        unproved = [S.show(c)[:120] for c, v in verdicts if v is None]
         ok_a = all(S.equiv(r_[0], S.op("add", base, ("attr", E, fm[f"{nm}_offset"].name)), n=40).equal is True for nm, r_ in (("key", rk), ("value", rv)))
         ok_l = all(S.equiv(r_[1], ("attr", E, fm[f"{nm}_length"].name), n=40).equal is True for nm, r_ in (("key", rk), ("value", rv)))
-        if unproved and ok_a and ok_l:
+        if refuted and ok_a and ok_l:
+            chk.violated("K-PROV", "vhdx:locator-addresses", loop, "the strings are cut out of a larger read that does not cover them for every entry "
+                         f"(offsets and lengths of an entry are independent fields): {refuted[0]} can be false - the slice comes back short")
+        elif unproved and ok_a and ok_l:
             chk.undecided("K-PROV", "vhdx:locator-addresses", loop, f"the strings are cut out of a larger read; that the read covers them is not shown: {unproved[0]}")
         else:
             chk.decide(ok_a, "K-PROV", "vhdx:locator-addresses", loop, "key and value consist of the bytes at locator start + key_offset / value_offset",
